@@ -1,6 +1,7 @@
 import Tbfmm.Spec.Fmm
 import Tbfmm.Model.Coord
 import Tbfmm.Model.Layout
+import Tbfmm.Model.P2P
 /-!
 Line-protocol driver for the executable model (see DESIGN.md §4.1).  Reads commands on stdin, writes
 canonical text on stdout; the C++ harness reads the same commands and writes the same format.
@@ -164,6 +165,20 @@ def layoutLines (tag : String) (defs : List BlockDef) (ns : List Nat) (alloc : N
   hdr :: ((defs.zip (ns.zip offs)).zipIdx.flatMap fun ((b, n, off), k) =>
     (layoutSamples b n).map fun (i, r) => s!"A {k} {i} {r} {itemAddr b off n i r}")
 
+/-- `p2p <mutual|inner|remote> <32|64> ns nt` followed by 8 values per particle (x y z q fx fy fz pot; sources first) -/
+def p2pRun (α : Type) [Scalar α] (conv : Nat → α) (back : α → Nat) (routine : String) (ns nt : Nat) (vals : List Nat) : List Nat :=
+  let mk := fun (k : Nat) =>
+    let v := (vals.drop (8 * k)).take 8
+    ((⟨conv (v.getD 0 0), conv (v.getD 1 0), conv (v.getD 2 0), conv (v.getD 3 0)⟩ : Part α),
+     (⟨conv (v.getD 4 0), conv (v.getD 5 0), conv (v.getD 6 0), conv (v.getD 7 0)⟩ : Acc α))
+  let srcs := (List.range ns).map mk
+  let tgts := (List.range nt).map fun k => mk (ns + k)
+  let (s', t') :=
+    if routine == "mutual" then fullMutual srcs tgts []
+    else if routine == "remote" then (srcs, fullRemote (srcs.map (·.1)) tgts)
+    else (srcs, genericInner tgts)
+  (s' ++ t').flatMap fun (_, a) => [back a.fx, back a.fy, back a.fz, back a.pot]
+
 def kv (ts : List String) (key : String) (dflt : Nat) : Nat :=
   match ts.find? (fun t => t.startsWith (key ++ "=")) with
   | some t => ((t.drop (key.length + 1)).toString).toNat!
@@ -182,6 +197,11 @@ def step (d : DState) (line : String) : DState × List String :=
     let idx := (List.range n).map fun i => encode d.D (d.H - 1) ((cs.drop (i * d.D)).take d.D)
     ({ d with leafIdx := idx }, [])
   | "mark" :: x => (d, ["M " ++ " ".intercalate x])
+  | "p2p" :: routine :: w :: ns :: nt :: vs =>
+    let vals := vs.map ofHex
+    let out := if w == "64" then p2pRun Float f64 (fun x => x.toBits.toNat) routine ns.toNat! nt.toNat! vals
+               else p2pRun Float32 f32 (fun x => x.toBits.toNat) routine ns.toNat! nt.toNat! vals
+    (d, [" ".intercalate ("PP" :: out.map hexOf)])
   | "layout" :: _id :: rest =>
     let defs := (rest.takeWhile (· != "|")).map parseBlockDef
     let ns := natsOf ((rest.dropWhile (· != "|")).drop 1)
